@@ -165,8 +165,21 @@ def single_field_print(P, rep, keys):
         if not ok:
             rep.viol("R-VERBATIM.text", key + " display-source", where, "the printed value is not a plain field of self")
             continue
-        # format template has no literal pieces besides the argument: Arguments::new::<N=2?> is opaque; accept
-        rep.ok("R-VERBATIM.text", key, where, "one sink write of `self.<field>`, no other call")
+        # the format template is exactly "{}": no literal text around the field, no width/fill/precision (read off the expanded AST)
+        fm = P.fmts_in(fn)
+        if len(fm) != 1:
+            rep.viol("R-VERBATIM.text", key + " template-count", where, "expected exactly one format_args! site, found %d" % len(fm))
+            continue
+        pcs = fm[0]["pieces"]
+        plain = (len(pcs) == 1 and "lit" not in pcs[0] and pcs[0].get("trait") == "Display" and not pcs[0].get("fill") and not pcs[0].get("align")
+                 and pcs[0].get("width") is None and pcs[0].get("precision") is None and not pcs[0].get("zero_pad") and not pcs[0].get("alternate")
+                 and not pcs[0].get("sign"))
+        if not plain:
+            rep.viol("R-VERBATIM.text", key + " template", "%s:%s" % (fm[0]["file"], fm[0]["line"]),
+                     "the text is written through a format template other than \"{}\" (%s): literal pieces, width, precision or fill alter/pad/truncate the text"
+                     % ", ".join(("literal %r" % p_["lit"]) if "lit" in p_ else "placeholder%s" % ("" if not any(p_.get(k) for k in ("fill", "align", "width", "precision", "sign")) else " with options") for p_ in pcs))
+            continue
+        rep.ok("R-VERBATIM.text", key, where, "one sink write of `self.<field>` through the template \"{}\", no other call")
 
 
 def no_calls(P, rep, key):
